@@ -231,3 +231,71 @@ example : readFasta (.encoded false) (renderText true false (renderLines exFile)
   layout_independent false true false 3 _ _ exFile_wf
 
 end Gofasta.Props.C16
+
+namespace Gofasta.Props.C16
+open Gofasta Base Model Spec Lemmas
+
+/-- the same file structure for the plain-text reader (it performs no symbol check: any non-empty line that does
+    not start with '>' and contains no line-end byte is a sequence line) -/
+structure WFFilePlain (W : Nat) (recs : List LRec) : Prop where
+  wpos : 0 < W
+  ids : ∀ r ∈ recs, firstField r.desc = some r.id
+  hdr : ∀ r ∈ recs, CleanLine r.desc
+  chunks : ∀ r ∈ recs, ∀ l ∈ r.chunks, SeqLine l ∧ CleanLine l
+  width : ∀ r ∈ recs, r.seq.length = W
+
+/-- **C16.layout_independent (plain reader)** — ReadAlignment returns the same records with upper-cased text -/
+theorem layout_independent_plain (crlf finalEol : Bool) (W : Nat) (r0 : LRec) (rs : List LRec) (hf : WFFilePlain W (r0 :: rs)) :
+    readFasta .plain (renderText crlf finalEol (renderLines (r0 :: rs))) = .ok (recsFrom asciiUpper (r0 :: rs) 0) := by
+  have hclean : ∀ l ∈ renderLines (r0 :: rs), CleanLine l ∧ l ≠ [] := by
+    intro l hl
+    simp only [renderLines, List.mem_flatMap, LRec.lines, List.mem_cons] at hl
+    obtain ⟨r, hr, hl⟩ := hl
+    rcases hl with rfl | hl
+    · obtain ⟨h1, h2⟩ := hf.hdr r (by simpa using hr)
+      refine ⟨⟨?_, ?_⟩, by simp⟩
+      · intro b hb
+        rcases List.mem_cons.1 hb with rfl | hb
+        · decide
+        · exact h1 b hb
+      · cases hd : r.desc with
+        | nil => simp
+        | cons x t =>
+          rw [hd] at h2
+          simpa [List.getLast?_cons_cons] using h2
+    · have := hf.chunks r (by simpa using hr) l hl
+      exact ⟨this.2, this.1.1⟩
+  rw [readFasta_eq_bind, splitLines_render crlf finalEol _ hclean]
+  have hw0 : r0.seq.length = W := hf.width r0 (by simp)
+  have mk : ∀ r ∈ r0 :: rs, WFRec .plain asciiUpper W r := by
+    intro r hr
+    refine ⟨hf.ids r hr, ?_, hf.width r hr⟩
+    intro l hl
+    exact ⟨(hf.chunks r hr l hl).1, rfl⟩
+  have h0 := mk r0 (by simp)
+  have hrs : ∀ r ∈ rs, WFRec .plain asciiUpper W r := fun r hr => mk r (by simp [hr])
+  rw [← hw0] at h0 hrs
+  exact rdLines_file .plain asciiUpper r0 rs (by rw [hw0]; exact hf.wpos) h0 hrs
+
+/-- **C16.readers_agree** — on a file that the encoded reader accepts, decoding the encoded records gives the records
+of the plain reader: same IDs, descriptions, indices, and upper-cased sequences -/
+theorem readers_agree_seq (hard : Bool) (s : List Nat) (h : ∀ b ∈ s, b < 256 ∧ enc hard b ≠ 0) :
+    (s.map (enc hard)).map dec = s.map asciiUpper := by
+  rw [List.map_map]
+  apply List.map_congr_left
+  intro b hb
+  have := dec_enc hard b (h b hb).1 (h b hb).2
+  simpa [Function.comp, upper, asciiUpper] using this
+
+/-- **C16.case_insensitive** — the encoded records do not depend on letter case -/
+theorem case_insensitive_seq (hard : Bool) (s : List Nat) (h : ∀ b ∈ s, b < 256) :
+    (s.map upper).map (enc hard) = s.map (enc hard) := by
+  rw [List.map_map]
+  apply List.map_congr_left
+  intro b hb
+  exact enc_upper hard b (h b hb)
+
+/-- **C16.score_counts** — the completeness score of a record is the sum over its symbols of 12 / |base set| -/
+theorem score_is_sum (s : List Nat) : scoreSeq s = (s.map scoreOf).sum := rfl
+
+end Gofasta.Props.C16
